@@ -7,6 +7,8 @@ import (
 	"context"
 	"errors"
 	"fmt"
+	"os"
+	"runtime"
 	"sort"
 	"strings"
 	"sync"
@@ -166,7 +168,7 @@ func (e *valEnv) justify(nn gpbft.NetworkName, p gpbft.Payload, signers []int) *
 			}
 			signers = append(signers, i)
 			pw += pt.ScaledPower[i]
-			if gpbft.IsStrongQuorum(pw, pt.ScaledTotal) && e.r.chance(70) {
+			if indepStrong(pw, pt.ScaledTotal) && e.r.chance(70) {
 				break
 			}
 		}
@@ -389,7 +391,7 @@ func (e *valEnv) corrupt(m *gpbft.GMessage, other *gpbft.GMessage) string {
 			var few []int
 			var pw int64
 			for _, i := range shuffled(r, len(pt.Entries)) {
-				if pt.ScaledPower[i] > 0 && !gpbft.IsStrongQuorum(pw+pt.ScaledPower[i], pt.ScaledTotal) {
+				if pt.ScaledPower[i] > 0 && !indepStrong(pw+pt.ScaledPower[i], pt.ScaledTotal) {
 					few = append(few, i)
 					pw += pt.ScaledPower[i]
 				}
@@ -859,6 +861,13 @@ func runValidator(o *out, r *rng, thorough bool, pid string) {
 				}
 			}
 		}
+		// scripted interleaving (logical concurrency made deterministic): validation of a VALID message is held inside
+		// signature verification while a forged twin (same size, broken signature) is validated and rejected on the same
+		// long-lived validator; once the first call completes, the forged twin must still be rejected -- the verdict
+		// cached by one call must never be attributable to another message.
+		if pid == "C05" && hi%4 == 0 && os.Getenv("VERIF_SKIP_INFLIGHT") == "" {
+			inFlightScenario(o, e, r)
+		}
 		cs := cList([]string{cPair("10", e.cmtTerm(e.cmts[10])), cPair("11", e.cmtTerm(e.cmts[11]))})
 		o.coqCase(fmt.Sprintf("history %d: %s", hi, strings.Join(desc, " | ")), fmt.Sprintf("val_history_ok 1 %s 2 %s", cs, cList(ops)))
 		o.count(pid+"-history", strings.Join(ops, ";"), accepted > 0 && rejected > 0)
@@ -868,4 +877,74 @@ func runValidator(o *out, r *rng, thorough bool, pid string) {
 		}
 	}
 	o.finish("From F3 Require Import GoInt QuorumGen ProgressGen Validator ValidatorRun.")
+}
+
+// gateVerifier lets the first signature verification after arm() block until release() is called.
+type gateVerifier struct {
+	inner   gpbft.Verifier
+	mu      sync.Mutex
+	armed   bool
+	entered chan struct{}
+	gate    chan struct{}
+}
+
+func (g *gateVerifier) Verify(pk gpbft.PubKey, msg, sig []byte) error {
+	g.mu.Lock()
+	hold := g.armed
+	g.armed = false
+	g.mu.Unlock()
+	if hold {
+		close(g.entered)
+		<-g.gate
+	}
+	return g.inner.Verify(pk, msg, sig)
+}
+func (g *gateVerifier) Aggregate(pks []gpbft.PubKey) (gpbft.Aggregate, error) {
+	return g.inner.Aggregate(pks)
+}
+
+func inFlightScenario(o *out, e *valEnv, r *rng) {
+	prev := runtime.GOMAXPROCS(1) // one P: pooled per-P scratch state is shared by the two validations
+	defer runtime.GOMAXPROCS(prev)
+	prog := gpbft.InstanceProgress{Instant: gpbft.Instant{ID: 10, Round: 0, Phase: gpbft.QUALITY_PHASE}}
+	for _, ph := range []gpbft.Phase{gpbft.QUALITY_PHASE, gpbft.PREPARE_PHASE, gpbft.COMMIT_PHASE} {
+		round := uint64(0)
+		if ph != gpbft.QUALITY_PHASE {
+			round = uint64(r.intn(2))
+		}
+		prog.Round, prog.Phase = round, ph
+		valid := e.validMsg(10, round, ph, e.chains[r.intn(2)])
+		forged := cloneMsg(valid)
+		forged.Signature[r.intn(len(forged.Signature))] ^= 0x5a
+		gv := &gateVerifier{inner: e.backend, entered: make(chan struct{}), gate: make(chan struct{})}
+		w := gpbft.VerifNewValidator(verifNet, gv, valCP{e}, func() gpbft.InstanceProgress { return prog }, caching.NewGroupedSet(4, 1000), 2)
+		fresh := gpbft.VerifNewValidator(verifNet, e.backend, valCP{e}, func() gpbft.InstanceProgress { return prog }, caching.NewGroupedSet(4, 1000), 2)
+		_, wantF := fresh.Validate(e.ctx, cloneMsg(forged))
+		_, wantV := fresh.Validate(e.ctx, cloneMsg(valid))
+		gv.mu.Lock()
+		gv.armed = true
+		gv.mu.Unlock()
+		done := make(chan error, 1)
+		go func() {
+			_, err := w.Validate(e.ctx, cloneMsg(valid))
+			done <- err
+		}()
+		select {
+		case <-gv.entered:
+		case err := <-done: // no signature verification happened (e.g. zero-power sender): nothing in flight
+			_ = err
+			continue
+		}
+		_, errMid := w.Validate(e.ctx, cloneMsg(forged)) // validated while the valid one is in flight
+		close(gv.gate)
+		errV := <-done
+		_, errAfter := w.Validate(e.ctx, cloneMsg(forged))
+		in := map[string]any{"phase": ph.String(), "round": round, "scenario": "valid message held in signature verification; forged twin validated meanwhile, then again"}
+		if verdictCode(errMid) != verdictCode(wantF) || verdictCode(errAfter) != verdictCode(wantF) || verdictCode(errV) != verdictCode(wantV) {
+			o.violate("the verdict depends only on the message, the committee and the current progress, never on which messages were validated earlier (nor concurrently)",
+				"c05-in-flight-verdict", in,
+				fmt.Sprintf("forged twin: fresh validator %v; long-lived validator during the in-flight validation %v, afterwards %v; valid message %v (fresh %v)", wantF, errMid, errAfter, errV, wantV))
+		}
+		o.count("C05-in-flight", fmt.Sprint(ph, round), true)
+	}
 }
